@@ -800,7 +800,8 @@ impl Sim {
                         out.oracle_fail(if !exact && overmatch_possible(&st, lock, &q) { "prefix-search-overmatch" } else { "cells-neq-chain-filter" }, &format!("{} got={:?} want={:?}", line, got, want));
                     }
                     let n = pages.len();
-                    if pages.iter().enumerate().any(|(i, p)| if i + 1 < n { p.len() != limit as usize } else { !p.is_empty() }) {
+                    // full pages, then at most one partial page, then the empty page that ends the walk
+                    if pages.iter().enumerate().any(|(i, p)| if i + 2 < n { p.len() != limit as usize } else if i + 2 == n { p.is_empty() || p.len() > limit as usize } else { !p.is_empty() }) {
                         out.oracle_fail("cells-pagination", &format!("{} pages={:?}", line, pages.iter().map(|p| p.len()).collect::<Vec<_>>()));
                     }
                 }
@@ -865,7 +866,8 @@ impl Sim {
                         out.oracle_fail(if !exact && overmatch_possible(&st, lock, &q) { "prefix-search-overmatch" } else { "txs-neq-chain-filter" }, &format!("{} got={:?} want={:?}", line, flat, want));
                     }
                     let n = pages.len();
-                    if pages.iter().enumerate().any(|(i, p)| if i + 1 < n { p.len() != limit as usize } else { !p.is_empty() }) {
+                    // full pages, then at most one partial page, then the empty page that ends the walk
+                    if pages.iter().enumerate().any(|(i, p)| if i + 2 < n { p.len() != limit as usize } else if i + 2 == n { p.is_empty() || p.len() > limit as usize } else { !p.is_empty() }) {
                         out.oracle_fail("txs-pagination", &format!("{} pages={:?}", line, pages.iter().map(|p| p.len()).collect::<Vec<_>>()));
                     }
                 }
@@ -1189,7 +1191,7 @@ pub fn run(opts: &Opts) {
             }
         }
     } else {
-        let (cases, steps) = if opts.thorough() { (700 * opts.scale, 60) } else { (90 * opts.scale, 45) };
+        let (cases, steps) = if opts.thorough() { (2500 * opts.scale, 60) } else { (250 * opts.scale, 45) };
         for _ in 0..cases {
             gen_case(&mut out, &mut rng, &mut sim, steps as usize, probe_known);
         }
